@@ -37,6 +37,20 @@ func feed(rb gowarc.WarcRecordBuilder, content []byte, how string) error {
 		style := strings.TrimPrefix(how, "rf-")
 		_, err := rb.ReadFrom(&chunkReader{data: append([]byte{}, content...), style: style, r: newRng(uint64(len(content)))})
 		return err
+	case strings.HasPrefix(how, "exact-"):
+		// several writes whose running total lands EXACTLY on the spill threshold, then one more byte, then the rest
+		m, _ := strconv.Atoi(strings.TrimPrefix(how, "exact-"))
+		if m <= 0 || len(content) <= m {
+			_, err := rb.Write(content)
+			return err
+		}
+		a := m / 2
+		for _, part := range [][]byte{content[:a], content[a:m], content[m : m+1], content[m+1:]} {
+			if _, err := rb.Write(part); err != nil {
+				return err
+			}
+		}
+		return nil
 	default: // mix: three parts, three methods
 		a, b := len(content)/3, 2*len(content)/3
 		if _, err := rb.Write(content[:a]); err != nil {
@@ -61,6 +75,9 @@ func runBuild(o ropts, ver string, rt0 int, hdr [][2]string, content []byte, how
 	rb := gowarc.NewRecordBuilder(gowarc.RecordType(rt0), o.options(gowarc.WithVersion(gowarc.VerifVersion(ver)))...)
 	for _, nv := range hdr {
 		rb.AddWarcHeader(nv[0], nv[1])
+	}
+	if how == "exact" {
+		how = fmt.Sprintf("exact-%d", o.maxMem)
 	}
 	if err := feed(rb, content, how); err != nil {
 		return bresult{errTag: "feed", line: "err feed"}
@@ -208,7 +225,7 @@ func kBuild(args []string) (string, string) {
 			}
 		}
 		// feeding manner and spill threshold must not matter
-		for _, alt := range []string{"ws", "rf-one", "rf-eofwith", "mix"} {
+		for _, alt := range []string{"ws", "rf-one", "rf-eofwith", "mix", "exact"} {
 			o2 := o
 			o2.maxMem = []int{1, 7, 0}[len(alt)%3]
 			r2 := runBuild(o2, args[1], rt0, hdr, content, alt)
@@ -406,9 +423,18 @@ func genC02(r *rng, n int, tier string, emit func(string, ...string)) {
 		sub := r.fork()
 		c := genBuildCase(sub)
 		o := genRopts(sub)
+		if sub.chance(1, 6) {
+			// arbitrary content whatever the declared content type: a warc-fields block that needs the block repair, an
+			// http block that is no http, ...
+			c.content = sub.bytes(sub.rangeInt(0, 300))
+			if sub.chance(1, 2) {
+				c.content = []byte(pick(sub, []string{"a: b\n", "via: http://example.com/\nhops: P\n", "k: v\r\n c\n", "nocolon\r\na: b\r\n", "a: b"}))
+			}
+			c.class = "arbitrary-content"
+		}
 		stat("build-class", c.class)
 		stat("build-content", strconv.Itoa(len(c.content)/50*50))
-		emit("build", o.String(), c.ver, strconv.Itoa(c.rt0), pairsArg(c.hdr), hx(c.content), hxs(fixedId), oraclesForBuild(c), pick(sub, []string{"w", "ws", "rf-whole", "rf-one", "rf-half", "rf-eofwith", "mix"}))
+		emit("build", o.String(), c.ver, strconv.Itoa(c.rt0), pairsArg(c.hdr), hx(c.content), hxs(fixedId), oraclesForBuild(c), pick(sub, []string{"w", "ws", "rf-whole", "rf-one", "rf-half", "rf-eofwith", "mix", "exact"}))
 	}
 }
 
